@@ -1,12 +1,11 @@
-import YaclibModel.Proofs.CoSharedMutex
+import YaclibModel.Proofs.CoSharedMutexS_wrPost_1
+import YaclibModel.Proofs.CoSharedMutexS_wrPost_2
 namespace Yaclib.CoSharedMutex
 
-set_option maxHeartbeats 4000000 in
 theorem inv_wrPost {cfg : Cfg} {s : State} (hi : Inv cfg s) (c : Cid) (r : Nat) (h : s.pc c = .wPost r) (hs : s.spin = .held c) :
     Inv cfg ((doWrPost s c r)) := by
-  cases hi
   by_cases hp : s.rwait = -(r : Int)
-  · simp only [doWrPost, hp, ↓reduceIte]; sm_auto [List.count_le_length]
-  · simp only [doWrPost, hp, ↓reduceIte]; sm_auto [List.count_le_length]
+  · exact inv_wrPost_1 hi c r h hs hp
+  · exact inv_wrPost_2 hi c r h hs hp
 
 end Yaclib.CoSharedMutex
